@@ -118,6 +118,8 @@ type c20source struct {
 	entries map[string][]byte // bucket + "/" + key -> value, all entries of the source DB
 	render  string
 	verify  func(dst db.Database) string // compares the state reopened from dst with the model
+	// objects whose blob is byte-identical to a trie node of the same state
+	lookalikes int
 }
 
 func c20KV(rt *rapid.T, tag string, n int, wide bool) map[string][]byte {
@@ -209,6 +211,61 @@ func c20Build(rt *rapid.T, tag string) *c20source {
 			}
 			model[string(k)] = a
 		}
+		// Blobs are arbitrary bytes chosen by whoever deploys them: some are byte-identical to a node of a
+		// storage trie of this very state, so one hash is wanted for two buckets (MerkleTrie and BytesByHash).
+		// The storage tries are flushed first to read their nodes; they stay reachable through their objects.
+		stors := map[string]trie.Snapshot{}
+		if rapid.IntRange(0, 2).Draw(rt, tag+"lookalikes") == 0 {
+			var nodes [][]byte
+			for _, k := range func() []string {
+				ks := make([]string, 0, len(model))
+				for k := range model {
+					ks = append(ks, k)
+				}
+				sort.Strings(ks)
+				return ks
+			}() {
+				if a := model[k]; a.stor != nil {
+					sm := trie_manager.NewMutable(src.spy, nil)
+					for _, sk := range c17SortedKeys(a.stor) {
+						sm.Set([]byte(sk), a.stor[sk])
+					}
+					ss := sm.GetSnapshot()
+					if err := ss.Flush(); err != nil {
+						ev.Inconclusive("source flush: %v", err)
+					}
+					stors[k] = ss
+				}
+			}
+			var nk []string
+			for id := range src.spy.touched {
+				if strings.HasPrefix(id, string(db.MerkleTrie)+"/") {
+					nk = append(nk, id[len(db.MerkleTrie)+1:])
+				}
+			}
+			sort.Strings(nk)
+			bk, _ := src.spy.Database.GetBucket(db.MerkleTrie)
+			for _, k := range nk {
+				if v, _ := bk.Get([]byte(k)); v != nil {
+					nodes = append(nodes, v)
+				}
+			}
+			if len(nodes) > 0 {
+				for _, k := range func() []string {
+					ks := make([]string, 0, len(model))
+					for k := range model {
+						ks = append(ks, k)
+					}
+					sort.Strings(ks)
+					return ks
+				}() {
+					if rapid.IntRange(0, 2).Draw(rt, tag+"lookalike") == 0 {
+						model[k].data = nodes[rapid.IntRange(0, len(nodes)-1).Draw(rt, tag+"node")]
+						src.lookalikes++
+					}
+				}
+			}
+		}
 		for _, k := range func() []string {
 			ks := make([]string, 0, len(model))
 			for k := range model {
@@ -219,7 +276,10 @@ func c20Build(rt *rapid.T, tag string) *c20source {
 		}() {
 			a := model[k]
 			o := &c20Obj{database: src.spy, data: a.data, dataHash: crypto.SHA3Sum256(a.data)}
-			if a.stor != nil {
+			if ss, ok := stors[k]; ok {
+				o.stor = ss
+				o.storRoot = ss.Hash()
+			} else if a.stor != nil {
 				sm := trie_manager.NewMutable(src.spy, nil)
 				for _, sk := range c17SortedKeys(a.stor) {
 					sm.Set([]byte(sk), a.stor[sk])
@@ -230,7 +290,11 @@ func c20Build(rt *rapid.T, tag string) *c20source {
 			if _, err := m.Set([]byte(k), o); err != nil {
 				ev.Inconclusive("source set: %v", err)
 			}
-			fmt.Fprintf(&sb, " %s->{%s;%s}", c21Short([]byte(k)), a.data, c20RenderKV(a.stor))
+			if bytes.HasPrefix(a.data, []byte("blob-")) {
+				fmt.Fprintf(&sb, " %s->{%s;%s}", c21Short([]byte(k)), a.data, c20RenderKV(a.stor))
+			} else {
+				fmt.Fprintf(&sb, " %s->{node:%x;%s}", c21Short([]byte(k)), a.data, c20RenderKV(a.stor))
+			}
 		}
 		s := m.GetSnapshot()
 		if err := s.Flush(); err != nil {
@@ -612,6 +676,9 @@ func TestC20(t *testing.T) {
 			desc = fmt.Sprintf("%s… | %d steps sha3=%x", src.render[:min(len(src.render), 500)], len(sched), crypto.SHA3Sum256([]byte(desc))[:8])
 		}
 		labels := []string{"shape-" + src.shape}
+		if src.lookalikes > 0 {
+			labels = append(labels, "blob-identical-to-a-trie-node")
+		}
 		for k := range kinds {
 			labels = append(labels, k)
 		}
